@@ -442,16 +442,37 @@ def first_leaf_guard(ctx, rule="KIND-first-leaf"):
     """static_dim_length.find_axis_size takes tree_leaves(x)[0] for every non-None axis: an axis paired with a
     leafless pytree (None / {} constraint) raises IndexError."""
     node, mod = fnode(ctx, PJ + "static_dim_length")
-    inner = [f for f in ast.walk(node) if isinstance(f, ast.FunctionDef) and f.name != "static_dim_length"]
-    ctx.need(len(inner) == 1, "static_dim_length.find_axis_size not found")
-    f = inner[0]
+    # every function static_dim_length can reach inside pjax.py: its own nested functions and the module-level helpers it references
+    # (transitively) — extracting `find_axis_size` to module level does not move it out of the rule's reach
+    mod_funcs = {st.name: st for st in mod.tree.body if isinstance(st, ast.FunctionDef)}
+    reach, todo = [node], [node]
+    while todo:
+        f = todo.pop()
+        for n in ast.walk(f):
+            if isinstance(n, ast.Name) and n.id in mod_funcs and mod_funcs[n.id] not in reach:
+                reach.append(mod_funcs[n.id])
+                todo.append(mod_funcs[n.id])
+    firsts = []
+    for f in reach:
+        for st in ast.walk(f):
+            if isinstance(st, ast.Subscript) and isinstance(st.value, ast.Call) and unp(st.value.func).endswith("tree_leaves") and unp(st.slice) == "0":
+                firsts.append((f, st))
+            # leaves = tree_leaves(x); ... leaves[0]
+            if isinstance(st, ast.Subscript) and isinstance(st.value, ast.Name) and unp(st.slice) == "0" and any(
+                    isinstance(a, ast.Assign) and unp(a.targets[0]) == st.value.id and isinstance(a.value, ast.Call) and unp(a.value.func).endswith("tree_leaves")
+                    for a in ast.walk(f)):
+                firsts.append((f, st))
+    ctx.need(bool(firsts), "static_dim_length: the first-leaf read tree_leaves(x)[0] was not found in any reachable function (anchor vanished)")
     bad = None
-    for st in ast.walk(f):
-        if isinstance(st, ast.Subscript) and isinstance(st.value, ast.Call) and unp(st.value.func).endswith("tree_leaves") and unp(st.slice) == "0":
-            # guarded by a length/emptiness test on the leaves?
+    for f, st in firsts:
+        # guarded by a length/emptiness test on the leaves, in the function that takes the first leaf?
+        if isinstance(st.value, ast.Name):
+            v = st.value.id   # the variable holding the leaves: some test in the function must consult it (emptiness / length)
+            guarded = any(isinstance(i, (ast.If, ast.IfExp)) and any(isinstance(n, ast.Name) and n.id == v for n in ast.walk(i.test)) for i in ast.walk(f))
+        else:
             guarded = any(isinstance(i, (ast.If, ast.IfExp)) and ("tree_leaves" in unp(i.test) or "leaves" in unp(i.test)) for i in ast.walk(f))
-            if not guarded:
-                bad = st
+        if not guarded:
+            bad = st
     if bad is not None:
         ctx.bad(rule, "pjax.static_dim_length.find_axis_size", "tree_leaves(x)[0] without an emptiness guard",
                 "an axis specification paired with a leafless argument (None or {} constraint of a vectorised sub-call whose axis size is inferred) raises IndexError; "
